@@ -57,7 +57,7 @@ fn main() {
         "bufmut-random" => e_bufmut::bufmut_random(&mut out, seed, n, arg(&args, "--depth", 3)),
         "bufmut-codec" => e_bufmut::bufmut_codec(&mut out, seed, n),
         "bufmut-replay" => e_bufmut::bufmut_replay(&mut out),
-        "heap-random" => e_heap::heap_random_mode(&mut out, seed, n, arg(&args, "--odd", 0u8) == 1, arg(&args, "--wild", 30), arg(&args, "--maxops", 30), arg(&args, "--arena", 0u8) == 1),
+        "heap-random" => { e_heap::BIG.store(arg(&args, "--big", 0u8) == 1, std::sync::atomic::Ordering::Relaxed); e_heap::heap_random_mode(&mut out, seed, n, arg(&args, "--odd", 0u8) == 1, arg(&args, "--wild", 30), arg(&args, "--maxops", 30), arg(&args, "--arena", 0u8) == 1) }
         "heap-replay" => e_heap::heap_replay(&mut out),
         "recycle-one" => e_recycle::recycle_one(&mut out, arg(&args, "--rounds", 1000), arg(&args, "--factor", 1)),
         "recycle" => e_recycle::recycle(&mut out, seed, n, arg(&args, "--rounds", 1000), arg(&args, "--factor", 100)),
